@@ -166,6 +166,7 @@ fn triangles_grid(ex: &Ex) {
 fn triangles_random(d: &mut Dec, cx: &mut Cx) -> Res {
     let r = if d.ratio(1, 3) { 40 } else { 9 };
     let (a, b, c) = (gen::point(d, r), gen::point(d, r), gen::point(d, r));
+    let (b, c) = gen::structure_triangle(d, a, b, c);
     // fourth point on the other side of a-b (if any)
     let mut dd = gen::point(d, r);
     let o = orient(a, b, c);
@@ -179,7 +180,8 @@ fn triangles_random(d: &mut Dec, cx: &mut Cx) -> Res {
     cx.describe(|| format!("{:?} fourth vertex {:?}", Triangle::new(a, b, c), fourth));
     cx.class(if o == 0 { "degenerate" } else if fourth.is_some() { "with_adjacent" } else { "single" });
     cx.nontrivial(nontrivial_triangle(a, b, c));
-    check_triangle(a, b, c, fourth)
+    check_triangle(a, b, c, fourth)?;
+    gen::iterator_protocol(&|| Triangle::new(a, b, c).points(), d, "triangle:points")
 }
 
 fn polylines(d: &mut Dec, cx: &mut Cx) -> Res {
@@ -214,7 +216,7 @@ fn polylines(d: &mut Dec, cx: &mut Cx) -> Res {
         _ => "multi_segment",
     });
     cx.nontrivial(v.len() >= 3 && repeated);
-    Ok(())
+    gen::iterator_protocol(&|| Polyline::new(&v).translate(tr).points(), d, "polyline:points")
 }
 
 
